@@ -1,6 +1,7 @@
 /- `dwdriver`: line protocol.  One JSON object per input line -> one JSON object per output line:
    {"id": <same id>, "r": <result>}  or  {"id":..., "err": "<driver error>"}  -/
 import DW.Driver.Strings
+import DW.Driver.Core
 
 open Lean DW.Driver
 
@@ -8,6 +9,8 @@ def dispatch (j : Json) : Except String Json := do
   let op ← getStr j "op"
   match String.ofList op with
   | "str" => handleStr j
+  | "dump" => handleDump j
+  | "load" => handleLoad j
   | x => throw s!"unknown op {x}"
 
 def handleLine (line : String) : String :=
